@@ -14,6 +14,21 @@ import NngModel.Spec.Pair
 namespace Nng.Pair0
 open Nng Nng.Proto Nng.PairSpec
 
+/-! ### the judge without the receive-liveness clause
+
+  `pairStepWith` = `pairStepWithOld` followed (at quiescent steps) by the clause `pairLive`.  The
+  simulation (`R`, `R'`, the per-event lemmas) is carried out for `pairStepOld`; Proofs/PairLive.lean
+  and the end of Proofs/PairJudgeMain.lean add the clause. -/
+
+def pairStepWithOld (nq : Bool) (j : PairJ) (ev : Ev) (outs : List Out) : PairJ :=
+  if j.err.isSome then j else
+  if notExecuted outs then j else
+  let pre := pairPre nq { j with lastPoll := none } ev outs
+  let j' := pairPost nq j.lastPoll pre.2 ev outs (pairMid nq pre.2 ev outs pre.1)
+  if nq then j' else pairQuiescent j'
+
+def pairStepOld (j : PairJ) (ev : Ev) (outs : List Out) : PairJ := pairStepWithOld false j ev outs
+
 /-! ### the judge's "accepted, not yet handed off" lists versus the model's buffers -/
 
 /-- `UR u w`: the judge's list `u` is the buffer `w` (in order, any flag) interleaved with
